@@ -13,6 +13,7 @@ OL_ITER_WRAPPER: _ol_reserved_name = "__ol_iter_wrapper"  # don't need format he
 OL_ASSIGN_TMP: _ol_reserved_name = "__ol_assign_{}"
 OL_AUGASSIGN_TMP: _ol_reserved_name = "__ol_augass_{}"
 OL_AUGASSIGN_SLICE_TMP: _ol_reserved_name = "__ol_sllice_{}"
+OL_AUGASSIGN_OBJ_TMP: _ol_reserved_name = "__ol_augobj_{}"
 OL_RETURN_VALUE: _ol_reserved_name = "__ol_retv_{}"
 OL_RETURN: _ol_reserved_name = "__ol_ret_{}"
 OL_NONLOCAL_DICT: _ol_reserved_name = "__ol_nonlocal_{}"
